@@ -30,13 +30,14 @@ type lcEvent struct {
 func TestC05LeastConnections(t *testing.T) {
 	const openKey = keyLC
 	sub := lab.Sub("lc-model", "rapid histories (5..60 events of start/finish(j)/eject/recover/add/remove, pool 1..8) against lb.ServeHTTP with every backend parking its "+
-		"requests in the L1 fake network, virtual time; half of the cases start from a drawn in-flight vector (0..6 each) set through Backend.IncrementConnections; "+
+		"requests in the L1 fake network, virtual time; half of the cases start from a drawn in-flight vector (each from {0,1,2,3,5,6,99,100,101,500}) set through Backend.IncrementConnections; "+
 		"oracle after every start: the request arrived at an eligible backend whose in-flight count was minimal among eligible backends; "+
 		"non-trivial = at least one start with >=2 eligible backends whose in-flight counts were not all equal")
 	sub.NontrivialFloor(0.6)
 	sub.Floor("parked-only", 0.3)
 	sub.Floor("preloaded-vector", 0.3)
 	sub.Floor("finish-used", 0.5)
+	sub.Floor("inflight-99plus", 0.2)
 	excl := excluded(openKey)
 	if excl {
 		sub.Floor("start-while-ejected", 0.15) // most such starts fall into the excluded region
@@ -58,7 +59,8 @@ func TestC05LeastConnections(t *testing.T) {
 			if err != nil {
 				rt.Fatalf("harness: %v", err)
 			}
-			defer p.lb.Stop()
+			defer p.close()
+			t0 := time.Now()
 			inflight := map[string]int{} // the model
 			parked := map[string]int{}
 			until := map[string]time.Time{}
@@ -75,7 +77,7 @@ func TestC05LeastConnections(t *testing.T) {
 			}
 			if preload {
 				for i := 0; i < n0; i++ {
-					c := rapid.IntRange(0, 6).Draw(rt, "pre")
+					c := rapid.SampledFrom(lcMagnitudes).Draw(rt, "pre")
 					pre = append(pre, c)
 					for j := 0; j < c; j++ {
 						p.backend(lab.BackendName(i)).IncrementConnections()
@@ -198,7 +200,7 @@ func TestC05LeastConnections(t *testing.T) {
 					p.ejected[p.names[i]] = true
 					until[p.names[i]] = time.Now().Add(d)
 					evs = append(evs, lcEvent{K: "eject", I: i, D: d.String()})
-				case k < 90 && len(ej) > 0:
+				case k < 90 && len(ej) > 0 && time.Since(t0) < 12*time.Hour: // parked requests live for a day of virtual time (handler timeout)
 					i := rapid.SampledFrom(ej).Draw(rt, "i")
 					d := time.Until(until[p.names[i]]) + time.Second
 					time.Sleep(d)
@@ -234,6 +236,12 @@ func TestC05LeastConnections(t *testing.T) {
 		labels := []string{}
 		if preload {
 			labels = append(labels, "preloaded-vector")
+			for _, c := range pre {
+				if c >= 99 {
+					labels = append(labels, "inflight-99plus")
+					break
+				}
+			}
 		} else {
 			labels = append(labels, "parked-only")
 		}
@@ -258,6 +266,10 @@ func TestC05LeastConnections(t *testing.T) {
 		}
 	})
 }
+
+// in-flight counts an initial vector is drawn from: small ones (ties and near-ties) and the
+// magnitudes around 100 and beyond
+var lcMagnitudes = []int{0, 1, 2, 3, 0, 1, 5, 6, 99, 100, 101, 500, 100, 99}
 
 func keysOf(m map[string]bool) []string {
 	var out []string
